@@ -364,8 +364,8 @@ Section Send.
       let streamed := if (m =? M_HEAD) && negb (hd_status h4 =? 101) then [] else stream_bytes r1 in
       Ok (mkSent h5 (body_written m body ++ streamed))).
 
-  (** the same before the repairs 537474e (the future ran for HEAD too), feabc71 (a stream of unknown
-      length went out as keep-alive), b4638db (a body after 1xx/204/304) and c151144 (transfer-encoding
+  (** the same before the repairs d63bba7 (the future ran for HEAD too), 7334433 (a stream of unknown
+      length went out as keep-alive), 89e2956 (a body after 1xx/204/304) and 3c296af (transfer-encoding
       beside content-length): only the refutation witnesses use it *)
   Definition send_v0 (m : N) (r : reply0) : outcome sent :=
     obind (match r0_future r with Some _ => Ok r | None => apply_sanitize r end) (fun r1 =>
@@ -581,7 +581,7 @@ Fixpoint assocS (k : bytes) (l : list (bytes * (N * N * list bytes))) : option (
 (** the head a streaming handler returns (its body is empty; nothing of it is stored in the response cache) *)
 Definition stream_fat (hs : list (bytes * bytes)) : fat :=
   {| f_status := 200; f_headers := hs; f_body := []; f_spref := SP_NONE; f_compress := false |}.
-(** [extensions::stream_body] (after the repair 1d0a5e7: the range is cut at the end of the file; before, it
+(** [extensions::stream_body] (after the repair 4cb2e2f: the range is cut at the end of the file; before, it
     announced [end - start] of the request's range whatever the file holds): announced length and bytes *)
 Definition stream_body_future (clamp : bool) (content : bytes) (r : request) : option N * list bytes :=
   let flen := N.of_nat (length content) in
